@@ -14,7 +14,7 @@ ValueClasses == {"plain", "markup", "quotes", "nonascii", "padded", "lookalike_c
                  "long", "many", "newline", "backslash", "huge", "repeated"}
 Algs == {"sha1", "sha256"}
 Scn == [signResp : BOOLEAN, signAssert : BOOLEAN, enc : BOOLEAN, alg : Algs, binding : {"post", "redirect", "soap"},
-        wantResp : BOOLEAN, wantAssert : BOOLEAN, wantEither : BOOLEAN, nameid : {"transient", "persistent"},
+        wantResp : BOOLEAN, wantAssert : BOOLEAN, wantEither : BOOLEAN, nameid : {"transient", "persistent", "email"},        \* "email": emailAddress format, the address written with capitals
         sessionExpiry : BOOLEAN, vclass : ValueClasses, unknownAttr : BOOLEAN,
         skew : {0, 180},
         \* authentication context the IdP was asked to state: a class with or without an authenticating authority
